@@ -252,6 +252,13 @@ fn set_mate(record: &mut Record, mate: &mut Record) {
 }
 
 fn calculate_template_length(record: &Record, mate: &Record) -> i32 {
+    // _Sequence Alignment/Map Format Specification_ (2021-06-03) § 1.4.9 "TLEN": "It is set as 0
+    // [...] when the information is unavailable (e.g., [...] when the two are mapped to different
+    // reference sequences)."
+    if record.reference_sequence_id != mate.reference_sequence_id {
+        return 0;
+    }
+
     calculate_template_length_chunk(
         record.alignment_start,
         record.read_length,
